@@ -394,7 +394,25 @@ def run(tier, fx=None, ck=None, control=False):
 
     if not own:
         return None
+    # ---- N1 every nested chunk names its file
+    import nestedcomp
+    ck.rule("N1.nested-chunks-name-their-file", "every function that creates the compiler of a nested function body copies `source_file` into it, as its siblings do "
+            "(frames of constructors and expression-bodied arrows are reported under the file of their code)", floor=3)
+    union1, rows1 = nestedcomp.rule(fx)
+    ck.anchor("source_file" in union1, "a creator of nested compilers copies Compiler.source_file (inherited fields: %s)" % sorted(union1))
+    for f1, sp1, inh1, miss1, via1 in rows1:
+        ok1 = "source_file" not in miss1
+        ck.instance("N1.nested-chunks-name-their-file", "%s%s" % (f1.path, " (through %s)" % via1.split("::")[-1] if via1 else ""), F.short_span(sp1), ok=ok1)
+        if not ok1:
+            ck.finding("N1.nested-chunks-name-their-file", "N1.nested-chunks-name-their-file/%s" % f1.path, F.short_span(sp1),
+                       "`%s` compiles a nested function body with a fresh compiler that is not told the source file: its frames are reported as `<eval>` "
+                       "(`const f = (o) => o.a.b` in /m.ts: `at f (<eval>:1:23)`), while the bodies compiled by its siblings name the file" % f1.path)
     ctl = F.load_fixture()
+    uc, rc = nestedcomp.rule(ctl, comp="nestedcomp::Compiler")
+    gotn = sorted((f.path.split("::")[-1], sorted(miss)) for f, sp, inh, miss, via in rc)
+    if gotn != [("bad_arrow", ["class_context_stack", "source_file"]), ("bad_ctor", ["source_file"]), ("good_body", []), ("good_via", [])]:
+        ck.closed_fail.append("N1 control failed: fixture gives %s" % gotn)
+    ck.note("N1 controls: fixture bad_ctor / bad_arrow reported, good_body and good_via (through the good creator) silent")
     ck2 = Check("C20", tier, "", [])
     run(tier, ctl, ck2, control=True)
     _fx[0] = fx
